@@ -468,7 +468,18 @@ func runBare(sc *Scenario, res *core.Result, verbose bool) {
 			out, mac, err = dns.TsigGenerateWithProvider(m, slowHMAC{secretGood, 1200 * time.Millisecond}, prior, timers)
 			res.Bump("fault.slow_tsig_provider")
 		} else {
-			m.SetTsig(keyName, sc.Alg, uint16(sc.Fudge), signT)
+			if sc.RunSeed%6 == 2 {
+				// the stub is made before the message has its final ID (SetTsig first, then the call that numbers the
+				// message; a forwarder that renumbers what it passes on): the TSIG keeps the ID it was made with as
+				// the original ID, the message that is signed and sent is the caller's - ID included
+				final := m.Id
+				m.Id ^= 0x5a5a
+				m.SetTsig(keyName, sc.Alg, uint16(sc.Fudge), signT)
+				m.Id = final
+				res.Bump("fault.stub_made_before_the_final_id")
+			} else {
+				m.SetTsig(keyName, sc.Alg, uint16(sc.Fudge), signT)
+			}
 			if sc.TsigErr != 0 && i == 0 && !timers {
 				if stub := m.IsTsig(); stub != nil {
 					stub.Error = uint16(sc.TsigErr)
